@@ -460,7 +460,7 @@ static void fs_cb(uv_fs_t* req) {
   if (req->fs_type == UV_FS_CLOSE && res == UV_ECANCELED && R[r].aux >= 0) close(R[r].aux);   /* the close never ran */
   uv_fs_req_cleanup(req);
   printf("res r%d result=%ld\n", r, res);
-  req_done("fs", r, res == UV_ECANCELED ? UV_ECANCELED : (res < 0 ? (int) res : 0));
+  req_done("fs", r, res == UV_ECANCELED ? UV_ECANCELED : 0);   /* the result of the operation itself is in the `res` line */
 }
 static void gai_cb2(uv_getaddrinfo_t* req, int status, struct addrinfo* res) { if (res) uv_freeaddrinfo(res); req_done("getaddrinfo", ridof(req), status); }
 static void gni_cb2(uv_getnameinfo_t* req, int status, const char* h, const char* sv) { (void) h; (void) sv; req_done("getnameinfo", ridof(req), status); }
@@ -696,11 +696,13 @@ static void exec_op(char* text0) {
   if (nr < MAXR && ((!strcmp(o, "fs") && (nw == 2 || nw == 3)) || (nw == 1 && (!strcmp(o, "getaddrinfo") || !strcmp(o, "getnameinfo") || !strcmp(o, "random"))))) {
     /* asynchronous uv_fs_* (thread pool or io_uring, libuv decides), numeric uv_getaddrinfo / uv_getnameinfo, uv_random */
     static char area[4096]; static uv_buf_t bufs[2048]; static char rbuf[16];
-    int kind, r = 0, fd = -1; void* req; long nb = nw == 3 ? atol(w[2]) : 0;
+    int kind, r = 0, fd = -1, rw = 0; void* req; long nb = nw == 3 ? atol(w[2]) : 0;
     if (!strcmp(o, "fs")) {
       kind = 6;
-      int rw = !strcmp(w[1], "read") || !strcmp(w[1], "write");
-      if (rw ? (nw != 3 || nb < 1 || nb > 2048) : (nw != 2 || (strcmp(w[1], "open") && strcmp(w[1], "close") && strcmp(w[1], "stat")))) BAD;
+      rw = !strcmp(w[1], "read") || !strcmp(w[1], "write");
+      if (rw ? (nw != 3 || nb < 1 || nb > 2048) : ((strcmp(w[1], "open") && strcmp(w[1], "close") && strcmp(w[1], "stat")) ||
+          (nw == 3 && strcmp(w[2], !strcmp(w[1], "close") ? "bad" : "missing")))) BAD;
+      if (!rw) nb = 0;
     } else {
       kind = !strcmp(o, "getaddrinfo") ? 7 : !strcmp(o, "getnameinfo") ? 8 : 9;
       if (kind != 9 && (pool_running >= 0 || pool_qn > 0)) BAD;   /* slow I/O only into an idle pool (its separate queue is not simulated) */
@@ -711,9 +713,11 @@ static void exec_op(char* text0) {
     if (kind == 6) {
       uv_fs_t* q = malloc(sizeof *q); req = q; R[me].ptr = q; nr++;
       for (long j = 0; j < nb; j++) bufs[j] = uv_buf_init(area + j, 1);
-      if (!strcmp(w[1], "open")) r = uv_fs_open(LP, q, fs_path, O_RDONLY, 0, fs_cb);
-      else if (!strcmp(w[1], "close")) { fd = dup(fs_fd); R[me].aux = fd; r = uv_fs_close(LP, q, fd, fs_cb); }
-      else if (!strcmp(w[1], "stat")) r = uv_fs_stat(LP, q, fs_path, fs_cb);
+      int failing = !rw && nw == 3;   /* the operation itself fails (ENOENT / EBADF): the request is accounted for all the same */
+      static char nopath[320]; snprintf(nopath, sizeof nopath, "%s.missing", fs_path);
+      if (!strcmp(w[1], "open")) r = uv_fs_open(LP, q, failing ? nopath : fs_path, O_RDONLY, 0, fs_cb);
+      else if (!strcmp(w[1], "close")) { fd = failing ? 1000000 : dup(fs_fd); R[me].aux = failing ? -1 : fd; r = uv_fs_close(LP, q, fd, fs_cb); }
+      else if (!strcmp(w[1], "stat")) r = uv_fs_stat(LP, q, failing ? nopath : fs_path, fs_cb);
       else if (!strcmp(w[1], "read")) r = uv_fs_read(LP, q, fs_fd, bufs, (unsigned) nb, 0, fs_cb);
       else r = uv_fs_write(LP, q, fs_fd, bufs, (unsigned) nb, 0, fs_cb);
     } else if (kind == 7) {
@@ -863,7 +867,12 @@ static void exec_op(char* text0) {
   if (!strcmp(o, "has_ref") && nw == 2 && live(i)) RET(uv_has_ref(H[i].ptr) != 0);
   if (!strcmp(o, "is_closing") && nw == 2 && live(i)) RET(uv_is_closing(H[i].ptr) != 0);
   if (!strcmp(o, "due_in") && nw == 2 && live(i) && H[i].kind == K_TIMER) RETU(uv_timer_get_due_in((uv_timer_t*) H[i].ptr));
-  if (!strcmp(o, "make_readable") && nw == 2 && live(i) && H[i].kind == K_POLL) { if (write(H[i].fd_b, "x", 1) < 0) {} RET(0); }
+  if (!strcmp(o, "make_readable") && nw == 2 && live(i) && H[i].kind == K_POLL) { if (H[i].fd_b >= 0 && write(H[i].fd_b, "x", 1) < 0) {} RET(0); }
+  if (!strcmp(o, "peer_reset") && nw == 2 && live(i) && H[i].kind == K_POLL) {
+    /* environment: the peer goes away with unread data -> the watched socket has a pending ECONNRESET: EPOLLERR (with EPOLLHUP / EPOLLIN) */
+    if (H[i].fd_b >= 0) { if (syscall(SYS_write, H[i].fd_a, "x", 1) < 0) {} close(H[i].fd_b); H[i].fd_b = -1; }
+    RET(0);
+  }
   if (!strcmp(o, "drain") && nw == 2 && live(i) && H[i].kind == K_POLL) { char b[256]; while (read(H[i].fd_a, b, sizeof b) > 0) {} RET(0); }
   if (!strcmp(o, "run") && nw == 2 && !in_cb) {
     int m = !strcmp(w[1], "DEFAULT") ? UV_RUN_DEFAULT : !strcmp(w[1], "ONCE") ? UV_RUN_ONCE : !strcmp(w[1], "NOWAIT") ? UV_RUN_NOWAIT : -1;
